@@ -17,6 +17,8 @@ private:
 	static constexpr unsigned int ll = 15;
 
 	uint64_t pfx_of(uint64_t k, unsigned int d) {
+		if(!d)
+			return 0;
 		return k & (uint64_t(-1) << (64 - d * 4));
 	}
 
